@@ -42,7 +42,15 @@ def mask_image(img, bbox, bbox_srs, coverage):
 def mask_polygons(bbox, bbox_srs, coverage):
     coverage = coverage.transform_to(bbox_srs)
     coverage = coverage.intersection(bbox, bbox_srs)
-    return flatten_to_polygons(coverage.geom)
+    if coverage is None:
+        # BBOXCoverage outside of bbox
+        return []
+    geom = coverage.geom
+    if geom is None:
+        # BBOXCoverage has no geometry
+        import shapely.geometry
+        geom = shapely.geometry.box(*coverage.bbox)
+    return flatten_to_polygons(geom)
 
 
 def image_mask_from_geom(size, bbox, polygons):
